@@ -50,7 +50,13 @@ impl Node {
             index,
             hash,
             length,
-            parent: flat_tree::parent(index),
+            // `flat_tree::parent` overflows for nodes whose parent index does not fit in a
+            // u64 (62 or more trailing one bits); such an index can arrive from the wire.
+            parent: if flat_tree::depth(index) < 62 {
+                flat_tree::parent(index)
+            } else {
+                u64::MAX
+            },
             data: Some(Vec::with_capacity(0)),
             blank,
         }
